@@ -359,6 +359,152 @@ theorem clear_ok {l : Nat} : ∀ (xs : List Nat) (fuel : Nat) (B : Rings) (h : H
       simp only [List.map_cons, List.cons_append]
       exact List.Perm.cons _ List.perm_middle
 
+/-! ### dlist_move_sorted -/
+
+/-- the position found by the `dlist_for_each_entry … break` loop: the first
+entry for which the comparator answers true, the head when there is none -/
+theorem sortedPos_spec (h : Heap) (cmp : Nat → Nat → Bool) (added head : Nat) :
+    ∀ (rest : List Nat) (p fuel : Nat), Seg h.next p rest head → head ∉ p :: rest → rest.length + 1 < fuel →
+      sortedPos h cmp added head fuel p = ((p :: rest).find? (cmp added)).getD head := by
+  intro rest
+  induction rest with
+  | nil =>
+    intro p fuel hs hh hf
+    simp only [Seg] at hs
+    have hph : p ≠ head := fun e => hh (by simp [e])
+    match fuel, hf with
+    | f + 2, _ =>
+      by_cases hc : cmp added p = true
+      · simp [sortedPos, hph, hc]
+      · simp [sortedPos, hph, hc, hs]
+  | cons x xs ih =>
+    intro p fuel hs hh hf
+    simp only [Seg] at hs
+    have hph : p ≠ head := fun e => hh (by simp [e])
+    match fuel, hf with
+    | f + 1, hf =>
+      by_cases hc : cmp added p = true
+      · simp [sortedPos, hph, hc]
+      · have := ih x f hs.2 (fun hm => hh (by simp at hm ⊢; right; exact hm)) (by simp at hf ⊢; omega)
+        simp only [sortedPos, hph, hc, if_false, hs.1, this]
+        simp [List.find?, hc]
+
+theorem find_split (q : Nat → Bool) (xs : List Nat) :
+    (xs.find? q = none ∧ xs.takeWhile (fun y => !q y) = xs ∧ xs.dropWhile (fun y => !q y) = []) ∨
+    (∃ x post, xs.find? q = some x ∧ q x = true ∧ xs.dropWhile (fun y => !q y) = x :: post ∧
+       xs = xs.takeWhile (fun y => !q y) ++ x :: post) := by
+  induction xs with
+  | nil => left; simp
+  | cons a as ih =>
+    by_cases ha : q a = true
+    · right; exact ⟨a, as, by simp [List.find?, ha], ha, by simp [List.dropWhile, ha], by simp [List.takeWhile, ha]⟩
+    · rcases ih with ⟨h1, h2, h3⟩ | ⟨x, post, h1, h2, h3, h4⟩
+      · left; simp [List.find?, ha, h1, List.takeWhile, List.dropWhile, h2, h3]
+      · right
+        refine ⟨x, post, by simp [List.find?, ha, h1], h2, by simp [List.dropWhile, ha, h3], ?_⟩
+        simp only [List.takeWhile, ha, Bool.not_false, List.cons_append]
+        rw [← h4]
+
+/-- `dlist_move_sorted(added, head, member, comparator)` with a lone `added`:
+the entry is inserted in front of the first entry for which the comparator holds
+(at the end when there is none); every other entry keeps its place. -/
+theorem moveSorted_ok {h : Heap} {cmp : Nat → Nat → Bool} {added head : Nat} {xs : List Nat} {B : Rings}
+    (ok : RingsOK h ([added] :: (head :: xs) :: B)) (fuel : Nat) (hf : xs.length + 1 < fuel) :
+    RingsOK (dlistMoveSorted h cmp fuel added head)
+      ((head :: (xs.takeWhile (fun y => !cmp added y) ++ added :: xs.dropWhile (fun y => !cmp added y))) :: B) := by
+  obtain ⟨_, _, ok1⟩ := ok.head
+  obtain ⟨⟨a', xs', e, r⟩, _, _⟩ := ok1.head
+  injection e with e1 e2; subst e1; subst e2
+  have hh : head ∉ xs := (List.nodup_cons.mp r.nodup).1
+  unfold dlistMoveSorted
+  cases xs with
+  | nil =>
+    have hn : h.next head = head := r.fwd
+    have : sortedPos h cmp added head fuel (h.next head) = head := by
+      match fuel, hf with
+      | f + 1, _ => simp [sortedPos, hn]
+    rw [this]
+    simpa using ok.addPrev
+  | cons x0 xs0 =>
+    have hfw := r.fwd; simp only [Seg] at hfw
+    rw [hfw.1, sortedPos_spec h cmp added head xs0 x0 fuel hfw.2 hh (by simp at hf; omega)]
+    rcases find_split (cmp added) (x0 :: xs0) with ⟨h1, h2, h3⟩ | ⟨x, post, h1, _, h3, h4⟩
+    · rw [h1, h2, h3]
+      simpa using ok.addPrev
+    · rw [h1, h3]
+      generalize (x0 :: xs0).takeWhile (fun y => !cmp added y) = pre at h4 ⊢
+      rw [h4] at ok
+      -- read the ring from x, insert before x, read it from head again
+      have ok2 : RingsOK h ((x :: (post ++ head :: pre)) :: [added] :: B) := by
+        have := swap12 ok
+        have := RingsOK.rotN (l1 := head :: pre) (b := x) (l2 := post) (by simpa using this)
+        simpa using this
+      have ok3 := (swap12 ok2).addPrev
+      have := RingsOK.rotN (l1 := x :: post) (b := head) (l2 := pre ++ [added]) (by simpa using ok3)
+      simpa using this
+
+theorem insertInstead_free_ok {h : Heap} {iter instead : Nat} {ys : List Nat} {B : Rings}
+    (ok : RingsOK h ((instead :: ys) :: B)) (hf : Free ((instead :: ys) :: B) iter) :
+    RingsOK (dlistInsertInstead h iter instead) ([instead] :: (iter :: ys) :: B) := by
+  unfold dlistInsertInstead
+  have h1 := ok.addPrevFree hf
+  cases ys with
+  | nil => simpa using h1.delInit
+  | cons y ys' =>
+    have h2 := RingsOK.delInit (a := instead) (x := y) (xs := ys' ++ [iter]) (by simpa using h1)
+    have h3 := swap12 h2
+    have h4 := RingsOK.rotN (l1 := y :: ys') (b := iter) (l2 := []) (by simpa using h3)
+    simpa using swap12 h4
+
+theorem Free.of_mem_iff {A A' : Rings} {a : Nat} (hf : Free A a) (e : ∀ y, (∃ s ∈ A', y ∈ s) → ∃ s ∈ A, y ∈ s) :
+    Free A' a := fun s hs hm => by
+  obtain ⟨s', hs', hm'⟩ := e a ⟨s, hs, hm⟩
+  exact hf s' hs' hm'
+
+/-- `dlist_move_sorted` of an entry that is in no ring (its fields are never read) -/
+theorem moveSorted_free_ok {h : Heap} {cmp : Nat → Nat → Bool} {added head : Nat} {xs : List Nat} {B : Rings}
+    (ok : RingsOK h ((head :: xs) :: B)) (hfr : Free ((head :: xs) :: B) added) (fuel : Nat) (hf : xs.length + 1 < fuel) :
+    RingsOK (dlistMoveSorted h cmp fuel added head)
+      ((head :: (xs.takeWhile (fun y => !cmp added y) ++ added :: xs.dropWhile (fun y => !cmp added y))) :: B) := by
+  obtain ⟨⟨a', xs', e, r⟩, _, _⟩ := ok.head
+  injection e with e1 e2; subst e1; subst e2
+  have hh : head ∉ xs := (List.nodup_cons.mp r.nodup).1
+  unfold dlistMoveSorted
+  cases xs with
+  | nil =>
+    have hn : h.next head = head := r.fwd
+    have : sortedPos h cmp added head fuel (h.next head) = head := by
+      match fuel, hf with
+      | f + 1, _ => simp [sortedPos, hn]
+    rw [this]
+    simpa using ok.addPrevFree hfr
+  | cons x0 xs0 =>
+    have hfw := r.fwd; simp only [Seg] at hfw
+    rw [hfw.1, sortedPos_spec h cmp added head xs0 x0 fuel hfw.2 hh (by simp at hf; omega)]
+    rcases find_split (cmp added) (x0 :: xs0) with ⟨h1, h2, h3⟩ | ⟨x, post, h1, _, h3, h4⟩
+    · rw [h1, h2, h3]
+      simpa using ok.addPrevFree hfr
+    · rw [h1, h3]
+      generalize (x0 :: xs0).takeWhile (fun y => !cmp added y) = pre at h4 ⊢
+      rw [h4] at ok hfr
+      have ok2 : RingsOK h ((x :: (post ++ head :: pre)) :: B) := by
+        have := RingsOK.rotN (l1 := head :: pre) (b := x) (l2 := post) (by simpa using ok)
+        simpa using this
+      have hfr2 : Free ((x :: (post ++ head :: pre)) :: B) added := by
+        intro s hs hm
+        rcases List.mem_cons.mp hs with rfl | hs
+        · refine hfr (head :: (pre ++ x :: post)) (by simp) ?_
+          simp only [List.mem_cons, List.mem_append] at hm ⊢
+          rcases hm with h1 | h1 | h1 | h1
+          · exact Or.inr (Or.inr (Or.inl h1))
+          · exact Or.inr (Or.inr (Or.inr h1))
+          · exact Or.inl h1
+          · exact Or.inr (Or.inl h1)
+        · exact hfr s (by simp [hs]) hm
+      have ok3 := ok2.addPrevFree hfr2
+      have := RingsOK.rotN (l1 := x :: post) (b := head) (l2 := pre ++ [added]) (by simpa using ok3)
+      simpa using this
+
 /-- STEP REFINEMENT: every operation of the reference semantics is matched by
 the heap operation: well-formed family before ⇒ well-formed family after. -/
 theorem step_refines_c {h : Heap} {A A' : Rings} {op : Op} (ok : RingsOK h A) (st : AStep A op A') :
@@ -435,5 +581,31 @@ theorem step_refines_c {h : Heap} {A A' : Rings} {op : Op} (ok : RingsOK h A) (s
     have h0 := ok.same s
     simp only [exec]; rw [splice_from_empty_ok h0]; exact h0
   | xclear s hlen => exact clear_ok _ _ _ _ (ok.same s) hlen
+  | @xspliceSelf l x xs B s =>
+    have h1 := unlink_ok (ok.same s)
+    obtain ⟨⟨a', xs', e, r1⟩, _, _⟩ := h1.head
+    injection e with e1 e2; subst e1; subst e2
+    have hn : (nodeUnlink h l).next l = l := r1.fwd
+    have : listSplice h l l = nodeUnlink h l := by simp only [listSplice, hn, if_true]
+    simp only [exec, this]; exact h1
+  | @xspliceSelfEmpty l B s =>
+    have h1 := unlink_single_ok (ok.same s)
+    obtain ⟨⟨a', xs', e, r1⟩, _, _⟩ := h1.head
+    injection e with e1 e2; subst e1; subst e2
+    have hn : (nodeUnlink h l).next l = l := r1.fwd
+    have : listSplice h l l = nodeUnlink h l := by simp only [listSplice, hn, if_true]
+    simp only [exec, this]; exact h1
+  | cmoveSorted s hf => exact moveSorted_ok (ok.same s) _ hf
+  | cmoveSortedFree s hfr hf => exact moveSorted_free_ok (ok.same s) hfr _ hf
+  | cinsertInsteadFree s hfr => exact insertInstead_free_ok (ok.same s) hfr
+  | @cinitRing a xs B s =>
+    obtain ⟨_, d, okB⟩ := (ok.same s).head
+    exact okB.initFree (fun r hr hm => d r hr a (by simp) hm)
+  | @xctorLone a B s =>
+    obtain ⟨_, d, okB⟩ := (ok.same s).head
+    have h1 := okB.initFree (a := a) (fun r hr hm => d r hr a (by simp) hm)
+    obtain ⟨e1, e2⟩ := nodeCtor_eq_init h a
+    have e : nodeCtor h a = dlistInit h a := Heap.ext' e1 e2
+    simp only [exec, e]; exact h1
 
 end Igris.C01
